@@ -15,6 +15,9 @@ from harness import common, agg_sched as A
 
 TARGETS = ["theories/Props/C16.vo", "theories/Proofs/GenEq_AggOps.vo"]
 GENEQ = {"theories/Proofs/GenEq_AggOps.vo": "AggOps"}
+# T1 units added after round 4 of the seeded changes
+TARGETS = TARGETS + ["theories/Proofs/GenEq_AggIO.vo"]
+GENEQ = dict(GENEQ, **{"theories/Proofs/GenEq_AggIO.vo": "AggIO"})
 ALLOWED_AXIOMS = []
 OP = 1600
 RULE = ("case = (initial rows, 2-4 evaluate()/make_statistic() calls with distinct or colliding subject names, schedule = list "
